@@ -37,7 +37,7 @@ func init() {
 			{Name: "parse", Race: true, Run: runParse, Replay: replayParse},
 			{Name: "stream", Race: true, Run: runStream},
 			{Name: "config", Race: true, Run: runConfig, Replay: replayConfig},
-			{Name: "session", Race: true, Run: runSession, Replay: replaySession},
+			{Name: "session", Race: true, Run: func(c *core.Ctx, r *core.Result) { runSession(c, r) }, Replay: func(c *core.Ctx, r *core.Result, raw []byte) { replaySession(c, r, raw) }},
 		},
 	})
 }
@@ -349,7 +349,7 @@ func runParse(c *core.Ctx, r *core.Result) {
 	scripts := scriptMessages()
 	r.Note("seed corpus: %d message types from the generator, %d inbound lines from acceptance scripts", len(targets), len(scripts))
 	j := core.NewJournal(c, c.Workers+1)
-	n := c.N(250000, 25000000)
+	n := c.N(150000, 25000000)
 	batch := 100
 	core.Each(c, r, "parse", n/batch, func(i int, rng *rand.Rand) {
 		reused := quickfix.NewMessage()
